@@ -174,6 +174,34 @@ func takeSnapshot(roots map[string]any) *snapshot {
 			for i := 0; i < v.Len(); i++ {
 				walk(fmt.Sprintf("%s[%d]", path, i), owner, v.Index(i), depth+1)
 			}
+			// the spare capacity is shared memory too: an append by a holder of an alias writes there.
+			// References are compared by address only (what they point to is not part of this object).
+			if v.Cap() > v.Len() && v.Cap()-v.Len() <= 64 {
+				full := v.Slice(0, v.Cap())
+				for i := v.Len(); i < v.Cap(); i++ {
+					e := full.Index(i)
+					sp := fmt.Sprintf("%s[spare %d]", path, i)
+					switch e.Kind() {
+					case reflect.Ptr, reflect.Map, reflect.Slice, reflect.Func, reflect.Chan, reflect.UnsafePointer:
+						s.leaves[sp] = fmt.Sprintf("addr:%x", e.Pointer())
+						s.owner[sp] = owner
+					case reflect.Interface:
+						if e.IsNil() {
+							s.leaves[sp] = "nil"
+						} else {
+							s.leaves[sp] = "iface:" + e.Elem().Type().String()
+						}
+						s.owner[sp] = owner
+					case reflect.Struct, reflect.Array:
+						// shallow: strings and numbers of the element
+						s.leaves[sp] = shallow(e)
+						s.owner[sp] = owner
+					default:
+						s.leaves[sp] = fmt.Sprint(rw(e).Interface())
+						s.owner[sp] = owner
+					}
+				}
+			}
 		case reflect.Array:
 			for i := 0; i < v.Len(); i++ {
 				walk(fmt.Sprintf("%s[%d]", path, i), owner, v.Index(i), depth+1)
@@ -200,6 +228,40 @@ func takeSnapshot(roots map[string]any) *snapshot {
 		walk(n, n, reflect.ValueOf(roots[n]), 0)
 	}
 	return s
+}
+
+// shallow renders the scalar fields of a struct or array element without following references.
+func shallow(v reflect.Value) string {
+	var sb strings.Builder
+	var rec func(v reflect.Value, d int)
+	rec = func(v reflect.Value, d int) {
+		switch v.Kind() {
+		case reflect.Struct:
+			for i := 0; i < v.NumField(); i++ {
+				rec(v.Field(i), d+1)
+			}
+		case reflect.Array:
+			for i := 0; i < v.Len() && i < 16; i++ {
+				rec(v.Index(i), d+1)
+			}
+		case reflect.Ptr, reflect.Map, reflect.Slice, reflect.Func, reflect.Chan, reflect.UnsafePointer:
+			fmt.Fprintf(&sb, "addr:%x;", v.Pointer())
+		case reflect.Interface:
+			sb.WriteString("iface;")
+		case reflect.String:
+			sb.WriteString(v.String() + ";")
+		case reflect.Bool:
+			fmt.Fprintf(&sb, "%v;", v.Bool())
+		case reflect.Int, reflect.Int8, reflect.Int16, reflect.Int32, reflect.Int64:
+			fmt.Fprintf(&sb, "%d;", v.Int())
+		case reflect.Uint, reflect.Uint8, reflect.Uint16, reflect.Uint32, reflect.Uint64, reflect.Uintptr:
+			fmt.Fprintf(&sb, "%d;", v.Uint())
+		case reflect.Float32, reflect.Float64:
+			fmt.Fprintf(&sb, "%v;", v.Float())
+		}
+	}
+	rec(v, 0)
+	return sb.String()
 }
 
 func stringOf(v reflect.Value) (s string, ok bool) {
@@ -342,22 +404,31 @@ type stageAReplay struct {
 
 var opAlphabet = []Op{"start:0", "start:1", "start:2", "start:3", "resume", "restore", "inspect:0", "inspect:3", "eval", "find:child", "chlang:1"}
 
+// a second, smaller alphabet around the flows with per-contact recipients and the boolean webhook
+var opAlphabet2 = []Op{"start:4:A", "start:5", "resume", "restore", "eval"}
+
 func stageA(c *mc.Ctx, doc []byte, maxLen int) {
 	c.Fact("stageA_ran")
 	var seqs [][]Op
-	var gen func(prefix []Op)
-	gen = func(prefix []Op) {
-		if len(prefix) > 0 {
-			seqs = append(seqs, append([]Op{}, prefix...))
+	for ai, alphabet := range [][]Op{opAlphabet, opAlphabet2} {
+		maxLen := maxLen
+		if ai == 1 && maxLen < 3 {
+			maxLen = 3 // start, restore, resume: the shortest history that reads a re-created webhook
 		}
-		if len(prefix) == maxLen {
-			return
+		var gen func(prefix []Op)
+		gen = func(prefix []Op) {
+			if len(prefix) > 0 {
+				seqs = append(seqs, append([]Op{}, prefix...))
+			}
+			if len(prefix) == maxLen {
+				return
+			}
+			for _, o := range alphabet {
+				gen(append(prefix, o))
+			}
 		}
-		for _, o := range opAlphabet {
-			gen(append(prefix, o))
-		}
+		gen(nil)
 	}
-	gen(nil)
 	for si, seq := range seqs {
 		if !c.Mine(si) {
 			continue
@@ -669,6 +740,8 @@ func flowsUsed(names []string) int {
 			switch {
 			case s == "start:0":
 				used["0"], used["1"] = true, true
+			case strings.HasPrefix(s, "start:4"):
+				used["4"], used["1"] = true, true // its start_session action loads the flow it names
 			case strings.HasPrefix(s, "start:"), strings.HasPrefix(s, "inspect:"):
 				used[s[strings.Index(s, ":")+1:]] = true
 			case s == "find:child", s == "chlang:1":
@@ -691,19 +764,30 @@ func stageB(c *mc.Ctx, doc []byte, base int) {
 		solo[n] = out
 	}
 	var scenarios [][]string
-	for i, a := range ScriptNames {
-		for _, b := range ScriptNames[i:] {
+	pairNames := CoreScripts
+	if c.Thorough() {
+		pairNames = ScriptNames
+	}
+	for i, a := range pairNames {
+		for _, b := range pairNames[i:] {
 			scenarios = append(scenarios, []string{a, b})
 		}
 	}
+	extraFrom := len(scenarios)
+	if !c.Thorough() {
+		scenarios = append(scenarios, ExtraPairs...)
+	} else {
+		extraFrom = 1 << 30
+	}
 	if c.Thorough() {
-		for i, a := range ScriptNames {
-			for j, b := range ScriptNames[i:] {
-				for _, d := range ScriptNames[i+j:] {
+		for i, a := range CoreScripts {
+			for j, b := range CoreScripts[i:] {
+				for _, d := range CoreScripts[i+j:] {
 					scenarios = append(scenarios, []string{a, b, d})
 				}
 			}
 		}
+		scenarios = append(scenarios, []string{"bcastA", "bcastB", "bcastA"}, []string{"hook", "child", "hook"})
 	}
 	bound := 2
 	if c.Thorough() {
@@ -718,6 +802,10 @@ func stageB(c *mc.Ctx, doc []byte, base int) {
 			return
 		}
 		distinct := map[string]bool{}
+		bound := bound
+		if si >= extraFrom {
+			bound = 1 // the long scripts around recipients and the boolean webhook: one preemption in the quick tier
+		}
 		execs, capped := mc.Explore(bound, 200000, func(ch *mc.Chooser) {
 			r := runSchedule(doc, names, ch)
 			c.Inc("schedules")
@@ -815,7 +903,8 @@ var raceFrame = regexp.MustCompile(`^\s+(github\.com/nyaruka/[^\s(]+(?:\([^)]*\)
 func stageC(c *mc.Ctx, runs int) {
 	c.Fact("stageC_ran")
 	exe := c.Args["race_exe"]
-	combos := [][]string{{"family", "child", "old", "legacy"}, {"child", "child", "inspect", "family"}, {"legacy", "legacy", "old", "old"}, {"inspect", "family", "child", "legacy"}}
+	combos := [][]string{{"family", "child", "old", "legacy"}, {"child", "child", "inspect", "family"}, {"legacy", "legacy", "old", "old"}, {"inspect", "family", "child", "legacy"},
+		{"bcastA", "bcastB", "bcastA", "bcastB"}, {"hook", "child", "hook", "child"}}
 	for i := 0; i < runs; i++ {
 		if !c.Mine(i) {
 			continue
